@@ -271,5 +271,49 @@ pub fn c11_systems() -> Vec<SystemDef> {
         [320.0, 365.0],
         &[1.0, 1.0],
     ));
+    // 12-14 infinite-dilution states: the last component is a trace (Henry-type calculations).
+    // Anything that reconstructs one derivative from others loses 1/x in accuracy there.
+    v.push(wrap(
+        "pcsaft_binary_trace",
+        ResidualModel::PcSaft(PcSaft::new(Arc::new(pcsaft_params(&["propane", "butane"])))),
+        2,
+        false,
+        [300.0, 345.0],
+        &[1.3, 1.3e-10],
+    ));
+    {
+        let recs = r#"[
+          {"identifier":{"name":"propane"},"molarweight":44.0962,"model_record":{"tc":369.96,"pc":4250000.0,"acentric_factor":0.153}},
+          {"identifier":{"name":"butane"},"molarweight":58.123,"model_record":{"tc":425.2,"pc":3800000.0,"acentric_factor":0.199}}
+        ]"#;
+        let p = PengRobinsonParameters::from_records(serde_json::from_str(recs).unwrap(), None).unwrap();
+        v.push(wrap(
+            "pr_binary_trace",
+            ResidualModel::PengRobinson(PengRobinson::new(Arc::new(p))),
+            2,
+            false,
+            [300.0, 340.0],
+            &[2.0, 2.0e-9],
+        ));
+    }
+    {
+        let p = PcSaftParameters::from_multiple_json(
+            &[
+                (vec!["propane", "hexane"], repo_file("tests/pcsaft/test_parameters.json")),
+                (vec!["acetone"], repo_file("parameters/pcsaft/gross2006.json")),
+            ],
+            None,
+            IdentifierOption::Name,
+        )
+        .unwrap_or_else(|e| harness(&format!("ternary: {e}")));
+        v.push(wrap(
+            "pcsaft_dipolar_ternary_trace",
+            ResidualModel::PcSaft(PcSaft::new(Arc::new(p))),
+            3,
+            false,
+            [310.0, 350.0],
+            &[0.5, 0.9, 1.4e-11],
+        ));
+    }
     v
 }
